@@ -354,6 +354,10 @@ Record rstep := {
   r_delta : rdelta;
   r_barrier : bool;               (* remember the current state as the base of later stale approximations *)
   r_stale : bool;                 (* use the approximation computed at the last barrier (parallel optimiser) *)
+  r_mode : nat;                   (* 0: project_mean_field (a new EPMeanField);  in place on the SAME object:
+                                     1: update_factor_mean_field(f, new) -- the factor's mean field is replaced;
+                                     2: update_factor_mean_field(f, new, index) / approx[index] = subset / update:
+                                        the listed plate elements are overwritten, the others kept *)
   r_new : list (var * (Q * Q));   (* the optimiser's new model distribution, (mean, sigma) *)
   r_obs_cavity : obs_mf;          (* factor_approximation(f).cavity_dist *)
   r_obs_model : obs_mf;           (* factor_approximation(f).model_dist *)
@@ -364,6 +368,10 @@ Record rstep := {
 }.
 
 (* replay of one step; [base] is the state at the last barrier (for stale approximations) *)
+(* in-place write-back of plate elements: keys of [new] overwritten, the rest kept *)
+Definition overwrite (last new : nmf) : nmf :=
+  map (fun vm => (fst vm, match get N2 (fst vm) new with Some x => x | None => snd vm end)) last.
+
 Definition raw_step (acc : nstate * nstate * bool) (s : rstep) : nstate * nstate * bool :=
   let '(st, base0, ok) := acc in
   let base := if r_barrier s then st else base0 in
@@ -373,15 +381,20 @@ Definition raw_step (acc : nstate * nstate * bool) (s : rstep) : nstate * nstate
   let cavd := n_cavity i src in
   let last := own N2 i src in
   let dl := delta_of (r_delta s) st in
-  let st' := n_project i dl cavd last new st in
+  let inplace := negb (Nat.eqb (r_mode s) O) in
+  let st' := match r_mode s with
+             | O => n_project i dl cavd last new st
+             | S O => replace_nth i new st
+             | _ => replace_nth i (overwrite (own N2 i st) new) st
+             end in
   let tol := tol_of (st_mag st + st_mag src + mf_mag new + st_mag st')%Z in
   let good :=
     mf_close tol cavd (r_obs_cavity s)
     && mf_close tol (n_model_dist i src) (r_obs_model s)
     && mf_close tol (own N2 i st') (r_obs_msg s)
     && mf_close tol (n_global st') (r_obs_global s)
-    && Bool.eqb (n_all_valid dl cavd last new) (r_obs_success s)
-    && Bool.eqb (n_updated_flag dl cavd last new) (r_obs_updated s) in
+    && (inplace || Bool.eqb (n_all_valid dl cavd last new) (r_obs_success s))
+    && (inplace || Bool.eqb (n_updated_flag dl cavd last new) (r_obs_updated s)) in
   (st', base, ok && good).
 
 Definition ofit := outcome N2.
